@@ -340,6 +340,10 @@ class Translator:
                 self.bad(node, "place is not bound here")
             if getattr(v, "initial", False) or v.term == self.places[k][1]:
                 self.init_used.add(k)
+        if k in self.spec.get("maybe_keys", ()) and not raw:
+            # `d["name"]` of a dict whose entries are the spec's Option places: KeyError on `none`
+            inner = elem_type(typ)
+            return V(self.hoist(f"PyRt.someE PyRt.Err.key {v.term}", inner, node), inner)
         if k in self.maybe_attrs and not raw:
             if not typ.startswith("Option "):
                 self.bad(node, "a maybe-attribute place whose type is not Option")
@@ -536,6 +540,9 @@ class Translator:
             return self.fmt_expr(node, env)
         a = self.expr(node.left, env)
         b = self.expr(node.right, env)
+        if op == "Add" and {a.typ, b.typ} <= {"Bytes", "Option Bytes"} and "Option Bytes" in (a.typ, b.typ):
+            # `bytes + None` / `None + bytes`: TypeError (both operands are evaluated first; neither evaluation has effects)
+            a, b = [x if x.typ == "Bytes" else V(self.hoist(f"PyRt.someE PyRt.Err.type {x.term}", "Bytes", node), "Bytes") for x in (a, b)]
         if op == "Add" and a.typ == "Bytes" and b.typ == "Bytes":
             return V(f"({a.term} ++ {b.term})", "Bytes")
         if op == "Mult" and ((is_int(a.typ) and b.typ in ("Str", "Bytes")) or (a.typ in ("Str", "Bytes") and is_int(b.typ))):
@@ -814,6 +821,14 @@ class Translator:
         f = node.func
         fname = self.key(f)
         kw = {k.arg: k.value for k in node.keywords}
+        if fname == "cast" and len(node.args) == 2 and not kw:
+            return self.expr(node.args[1], env)                  # typing.cast returns its second argument
+        if fname == "isinstance" and len(node.args) == 2 and not kw and isinstance(node.args[1], ast.Name):
+            x = self.expr(node.args[0], env)
+            fn = self.spec.get("classes", {}).get((x.typ, node.args[1].id))
+            if fn is None:
+                self.bad(node, f"isinstance of {x.typ} against a class the spec does not name")
+            return V(f"({fn} {x.term})", "Bool")
         if fname == "len" and len(node.args) == 1 and not kw:
             x = self.expr(node.args[0], env)
             if not (x.typ == "Bytes" or x.typ.startswith("List ")):
@@ -912,7 +927,8 @@ class Translator:
             return V(f"(PyRt.hexStr {x.term})", "Str")
         om = self.spec.get("obj_methods", {})
         if (isinstance(f, ast.Attribute) and isinstance(f.value, ast.Name) and not kw
-                and (self.seen_types.get(f.value.id, self.spec.get("locals", {}).get(f.value.id)), f.attr) in om):
+                and (self.spec.get("maybe_locals", {}).get(f.value.id) or self.seen_types.get(f.value.id, self.spec.get("locals", {}).get(f.value.id))
+                     or (env[f.value.id].typ if f.value.id in env else None), f.attr) in om):
             recv = self.expr(f.value, env)             # (UnboundLocalError when no statement on this path has assigned it)
             c = om[(recv.typ, f.attr)]
             if len(node.args) != len(c["args"]):
@@ -1227,6 +1243,10 @@ class Translator:
             return self.block([first] + more + list(rest), env, frame)
         if len(st.targets) != 1:
             self.bad(st, "chained assignment")
+        if (isinstance(st.targets[0], ast.Name) and isinstance(st.value, ast.Call) and self.key(st.value.func) == "cast"
+                and len(st.value.args) == 2 and not st.value.keywords and isinstance(st.value.args[1], ast.Name)
+                and st.value.args[1].id == st.targets[0].id):
+            return self.block(rest, env, frame)                # `x = cast(T, x)`: typing.cast returns `x` itself
         if self.key(st.targets[0]) in self.spec.get("ignore_writes", ()):
             # an attribute the spec declares outside the model: the statement is dropped if its right-hand side
             # cannot raise or have an effect (a name, a constant, an empty display)
@@ -1507,6 +1527,18 @@ class Translator:
                 env2, line = self.bind(c0.func.value, new, env, st)
                 return line + "\n" + self.block(rest, env2, frame)
             return self.with_hoists(hs, env, frame, inner_ext)
+        if (isinstance(c0, ast.Call) and isinstance(c0.func, ast.Attribute) and c0.func.attr == "add" and len(c0.args) == 1
+                and not c0.keywords and self.key(c0.func.value) in self.places and self.places[self.key(c0.func.value)][2].startswith("Set ")):
+            pk = self.key(c0.func.value)
+            v, hs = self.eval(c0.args[0], env)
+
+            def inner_add():
+                cur = self.read_place(pk, env, st)
+                typ = self.places[pk][2]
+                new = V(f"(PyRt.setAdd {cur.term} {self.coerce(v, elem_type(typ), st)})", typ)
+                env2, line = self.bind(c0.func.value, new, env, st)
+                return line + "\n" + self.block(rest, env2, frame)
+            return self.with_hoists(hs, env, frame, inner_add)
         ap = self.append_call(st)
         if ap is not None:
             pk, arg = ap
@@ -1744,6 +1776,8 @@ class Translator:
                 return ast.Compare(left=name, ops=[ast.Is()], comparators=[ast.Constant(value=None)])
             if isinstance(p, ast.MatchOr):
                 return ast.BoolOp(op=ast.Or(), values=[test(q) for q in p.patterns])
+            if isinstance(p, ast.MatchClass) and isinstance(p.cls, ast.Name) and not p.patterns and not p.kwd_patterns:
+                return ast.Call(func=ast.Name(id="isinstance", ctx=ast.Load()), args=[name, p.cls], keywords=[])
             self.bad(st, f"match pattern {type(p).__name__} (only constants, `|` and `_`)")
         for i, c in reversed(list(enumerate(cases))):
             if isinstance(c.pattern, ast.MatchAs) and c.pattern.pattern is None and c.pattern.name is None:
@@ -2141,8 +2175,8 @@ class TopFrame(Frame):
     def state(self, env):
         tr = self.tr
         if tr.state is not None:
-            if tr.outs or tr.actions:
-                tr.bad(None, "a definition over a state record with result locals or actions")
+            if tr.actions:
+                tr.bad(None, "a definition over a state record with actions")
             return env["__st"].term
         fields = []
         for k, (_, ln, typ, mode) in tr.places.items():
@@ -2179,6 +2213,14 @@ class TopFrame(Frame):
         tr = self.tr
         if tr.exits:
             return self.result("PyRt.Exit.fall", env)
+        if tr.state is not None and tr.outs:
+            # a fragment over a state record: its value is the tuple of its result locals
+            vals = []
+            for n, typ in tr.outs:
+                if env.get(n) is None:
+                    tr.bad(None, f"result local `{n}` is not assigned on every path")
+                vals.append(tr.coerce(env[n], typ, None))
+            return self.result("(" + ", ".join(vals) + ")", env)
         if self.fragment or tr.ret == "None":
             return self.result("()", env)
         if tr.ret.startswith("Option "):
@@ -2357,6 +2399,8 @@ def _translate(tr, func, spec, assume_raises):
         stateful = False
     else:
         tr.value_type = "PyRt.Exit" if tr.exits else ("Unit" if (fragment or tr.ret == "None") else ty(tr.ret))
+        if tr.state is not None and tr.outs:
+            tr.value_type = " × ".join(ty_arg(t) if " " in ty(t) else ty(t) for _, t in tr.outs)
         top = TopFrame(tr, fragment)
         text = tr.block(list(body), env, top)
         vt = tr.value_type
